@@ -19,12 +19,7 @@ from vlib import observe  # noqa: E402
 ACCESSORS = ["S", "T", "I", "C", "Cfull", "Cnosq", "cyT", "cyC", "str", "n"]
 
 
-def _stable(paths):
-    """the order among paths that mention an anonymous subquery follows its generated name subquery_<hash>, which the
-    property exempts: such lists are re-sorted on their canonical text; all other lists keep the order the code returned"""
-    if any("subquery_N" in c for p in paths for c in p):
-        return sorted(paths, key=lambda p: (p[-1], p[0], p))
-    return paths
+_stable = observe.stable
 
 
 def get(lr, name):
